@@ -33,15 +33,22 @@ def gen_ovni(sc):
     open(os.path.join(sc.gen, "gen_ovni_rproc.c"), "w").write("/* generated from src/rt/ovni.c on this run */\n" + src)
 
 def shared_statics():
-    """File-scope objects of ovni.c and common.c other than rproc/rthread (would be shared state)."""
+    """Objects with static storage duration in the runtime units other than rproc/rthread: file-scope
+    objects of ovni.c and `static` locals of ovni.c, common.c and version.h.  Any of them would be shared
+    by all threads of the process, which breaks the isolation argument of C11 (the known, read-mostly
+    globals of common.c - progname, is_debug_enabled - are only written by the emulator tools)."""
     out = []
-    for f in ("src/rt/ovni.c",):
+    for f, file_scope in (("src/rt/ovni.c", True), ("src/common.c", False), ("src/include/version.h", False)):
         src = re.sub(r"/\*.*?\*/", "", open(os.path.join(REPO, f)).read(), flags=re.S)
         depth = 0
         for ln in src.splitlines():
-            if depth == 0 and re.match(r"^(static\s+)?(struct\s+\w+|char|int|long|size_t|uint\w+|FILE|JSON_\w+)\s*\*?\s*\w+(\[[^\]]*\])?\s*(=|;)", ln) and "(" not in ln:
+            if depth == 0 and file_scope and "(" not in ln and re.match(
+                    r"^(static\s+)?(struct\s+\w+|char|int|long|size_t|uint\w+|FILE|JSON_\w+)\s*\*?\s*\w+(\[[^\]]*\])?\s*(=|;)", ln):
                 if "rproc" not in ln and "rthread" not in ln:
                     out.append("%s: %s" % (f, ln.strip()))
+            # function-scope statics (mutable: `static const` tables are fine)
+            if depth > 0 and re.match(r"^\s+static\s+(?!const\b)", ln) and "(" not in ln.split("=")[0]:
+                out.append("%s: %s" % (f, ln.strip()))
             depth += ln.count("{") - ln.count("}")
     return out
 
@@ -50,7 +57,7 @@ def obligations(tier, sc):
     gen_ovni(sc)
     sh = shared_statics()
     if sh:
-        raise RuntimeError("new file-scope objects in the runtime would be shared between threads; C11's frame argument must be revisited: %r" % sh)
+        raise RuntimeError("objects with static storage duration in the runtime would be shared between threads; C11's frame argument must be revisited: %r" % sh)
     obs = []
     for api, name in APIS.items():
         obs.append(Obligation(
@@ -67,6 +74,6 @@ def obligations(tier, sc):
                       out="true concurrent executions and weak-memory effects; data races inside libc/parson; malloc arena sharing",
                       oracle="own writes to the state are guarantee transitions; normal return from init/fini only for the compare-exchange winner; non-atomic process data touched only by the INIT owner "
                              "or after observing READY; process data bit-identical after every per-thread call",
-                      assumptions=["seq_cst atomics; thread-modular reasoning", "rthread is _Thread_local (checked on every run)", "no other file-scope mutable object in ovni.c (checked on every run)",
+                      assumptions=["seq_cst atomics; thread-modular reasoning", "rthread is _Thread_local (checked on every run)", "no other object with static storage duration (file scope or static local) in ovni.c/common.c/version.h (checked on every run)",
                                    "ghost file system of stubs/ghostfs.h, fault free"])))
     return obs
